@@ -6,6 +6,8 @@ CONSTANTS
   ZeroOldShortcut = TRUE
   Tear = TRUE
   MutLevel = 2
+  BigInit <- GenBig
+  Pairs <- GenPairs
 VIEW view
 INVARIANTS RootOK FileOK ProofGenOK CompleteOK
 PROPERTIES InclSoundOK ConsSoundOK DeviationOK
